@@ -8,6 +8,37 @@ sys.path.insert(0, os.path.join(os.path.dirname(os.path.abspath(__file__)), "pro
 import core
 
 
+def cap_thorough(mod, tier, queries, meta):
+    """The full thorough grids add up to ~46 000 queries (6-7 h on 16 cores).  By default the
+    thorough tier runs every query of the quick tier, every query of a family the module marks
+    `keep` and a deterministic sample (by hash of the query key, so it is the same on every run and
+    independent of the tree) of the rest, up to VERIF_THOROUGH_CAP queries (default 1200);
+    VERIF_THOROUGH_CAP=0 runs the full grid.  The evidence states which of the two was run."""
+    if tier != "thorough":
+        return queries, meta
+    cap = int(os.environ.get("VERIF_THOROUGH_CAP", "1200") or 0)
+    uniq = {}
+    quick = mod.build("quick")[0]
+    for q in list(queries) + quick:          # the thorough tier always contains the quick tier
+        uniq.setdefault(q.key(), q)
+    queries = list(uniq.values())
+    total = len(uniq)
+    if cap <= 0 or total <= cap:
+        meta["bounds"] = meta.get("bounds", "") + " [thorough: full grid of %d queries]" % total
+        return queries, meta
+    quick_keys = set(q.key() for q in quick)
+    keep = [q for k, q in uniq.items() if k in quick_keys or getattr(q, "keep", False)]
+    rest = sorted((q for k, q in uniq.items() if not (k in quick_keys or getattr(q, "keep", False))), key=lambda q: q.key())
+    room = max(0, cap - len(keep))
+    sel = keep + rest[:room]          # keys are md5 digests: sorting by key is a uniform deterministic sample
+    order = {id(q): i for i, q in enumerate(queries)}
+    sel.sort(key=lambda q: order.get(id(q), 0))
+    meta["bounds"] = meta.get("bounds", "") + (" [thorough, capped: %d of the %d queries of the full grid = every quick-tier query (%d) + a deterministic hash-ordered sample of the others; "
+                                                 "where the text above says 'all' for a thorough-only family, read 'a sample of'; VERIF_THOROUGH_CAP=0 runs the full grid]" % (len(sel), total, len(keep)))
+    meta["exhaustive"] = False
+    return sel, meta
+
+
 def main():
     ap = argparse.ArgumentParser()
     ap.add_argument("prop")
@@ -19,6 +50,7 @@ def main():
         sys.exit(core.replay_file(a.replay))
     mod = importlib.import_module(a.prop.lower())
     queries, meta = mod.build(a.tier)
+    queries, meta = cap_thorough(mod, a.tier, queries, meta)
     if a.list:
         for q in queries:
             print(q.name)
